@@ -1,5 +1,7 @@
 // Child module of crate::block_writer: sees BlockWriter's private fields.
 #![allow(dead_code)]
+use std::num::NonZeroUsize;
+
 use super::*;
 
 /// Finish the block and hand out its parts without copying: (whole buffer incl. footer, offset table, payload length).
@@ -13,4 +15,285 @@ pub(crate) fn finish_parts(mut bw: BlockWriter) -> (Vec<u8>, Vec<u64>, usize) {
     let buffer = std::mem::take(&mut bw.buffer);
     std::mem::forget(bw);
     (buffer, offsets, payload)
+}
+
+// ------------------------------------------------------------------------------------------------ abstract block writers
+// L1 runs the real Writer::insert / into_inner over ABSTRACT block writers (the real Writer over real BlockWriters
+// exceeds 20 GB from two index levels or two inserts on). An abstract writer owns no heap: its id is kept in
+// `index_key_counter`, its entries in static tables. insert / current_size_estimate / last_key are replaced
+// (kani::stub) by the models below; the real BlockWriter is proved equal to this model by the unit harnesses
+// c09_block_ref_* / c15_estimate_* / c18_block_order_* in this file.
+pub(crate) const AW: usize = 6; // writers: 0 = data, 1 = root index, ...
+pub(crate) const AE: usize = 4; // entries per block
+pub(crate) static mut AB_N: [usize; AW] = [0x5EED_0201; AW];
+pub(crate) static mut AB_PAYLOAD: [usize; AW] = [0x5EED_0202; AW];
+pub(crate) static mut AB_KLEN: [[usize; AE]; AW] = [[0x5EED_0203; AE]; AW];
+pub(crate) static mut AB_K: [[[u8; 2]; AE]; AW] = [[[0xB1; 2]; AE]; AW];
+pub(crate) static mut AB_VLEN: [[usize; AE]; AW] = [[0x5EED_0204; AE]; AW];
+pub(crate) static mut AB_V: [[[u8; 8]; AE]; AW] = [[[0xB2; 8]; AE]; AW];
+pub(crate) static mut AB_INSERTS: usize = 0x5EED_0205;
+
+pub(crate) fn abs_reset_all() {
+    unsafe {
+        AB_N = [0; AW];
+        AB_PAYLOAD = [0; AW];
+        AB_INSERTS = 0;
+    }
+}
+
+pub(crate) fn abs_writer(id: usize, interval: usize) -> BlockWriter {
+    BlockWriter {
+        buffer: Vec::new(),
+        last_key: None,
+        index_key_interval: NonZeroUsize::new(interval).unwrap(),
+        index_offsets: Vec::new(),
+        index_key_counter: id,
+    }
+}
+
+pub(crate) fn abs_id(bw: &BlockWriter) -> usize {
+    bw.index_key_counter
+}
+
+fn lex_gt(a: &[u8], b: &[u8]) -> bool {
+    // a > b for byte strings of length <= 2
+    let mut i = 0;
+    while i < 2 {
+        if i >= a.len() {
+            return false;
+        }
+        if i >= b.len() {
+            return true;
+        }
+        if a[i] != b[i] {
+            return a[i] > b[i];
+        }
+        i += 1;
+    }
+    a.len() > b.len()
+}
+
+/// model of BlockWriter::insert (same strict-order panic as the real one)
+pub(crate) fn abs_insert(bw: &mut BlockWriter, key: &[u8], val: &[u8]) {
+    let id = bw.index_key_counter;
+    unsafe {
+        let n = AB_N[id];
+        assert!(n < AE, "abstract block writer is full (harness bound)");
+        assert!(key.len() <= 2 && val.len() <= 8, "abstract block writer entry bound");
+        if n > 0 {
+            let lk = &AB_K[id][n - 1][..AB_KLEN[id][n - 1]];
+            assert!(lex_gt(key, lk), "key must be greater than the last key of the block");
+        }
+        AB_KLEN[id][n] = key.len();
+        AB_VLEN[id][n] = val.len();
+        let mut j = 0;
+        while j < 2 {
+            if j < key.len() {
+                AB_K[id][n][j] = key[j];
+            }
+            j += 1;
+        }
+        let mut j = 0;
+        while j < 8 {
+            if j < val.len() {
+                AB_V[id][n][j] = val[j];
+            }
+            j += 1;
+        }
+        AB_PAYLOAD[id] += 2 + key.len() + val.len();
+        AB_N[id] = n + 1;
+        AB_INSERTS += 1;
+    }
+}
+
+pub(crate) fn abs_offsets(n: usize, interval: usize) -> usize {
+    if n == 0 {
+        1
+    } else {
+        (n - 1) / interval + 1
+    }
+}
+
+/// model of BlockWriter::current_size_estimate
+pub(crate) fn abs_size(bw: &BlockWriter) -> usize {
+    let id = bw.index_key_counter;
+    unsafe { AB_PAYLOAD[id] + 8 * abs_offsets(AB_N[id], bw.index_key_interval.get()) + 4 }
+}
+
+/// model of BlockWriter::last_key
+pub(crate) fn abs_last_key(bw: &BlockWriter) -> Option<&[u8]> {
+    let id = bw.index_key_counter;
+    unsafe {
+        let n = AB_N[id];
+        if n == 0 {
+            None
+        } else {
+            Some(&AB_K[id][n - 1][..AB_KLEN[id][n - 1]])
+        }
+    }
+}
+
+pub(crate) fn abs_clear(id: usize) {
+    unsafe {
+        AB_N[id] = 0;
+        AB_PAYLOAD[id] = 0;
+    }
+}
+
+// ------------------------------------------------------------------------------------------------ real BlockWriter units
+#[derive(Clone, Copy)]
+struct BEnt {
+    klen: usize,
+    k: [u8; 2],
+    vlen: usize,
+    v: [u8; 8],
+}
+
+/// real BlockWriter == abstract model == reference encoding, for concrete lengths and symbolic contents:
+/// size estimate after every insert, last_key, the finished bytes (framing, offset table, count) and reuse after
+/// finish (the writer is reset: a second block built with the same writer is encoded like a fresh one).
+fn block_ref_check(n: usize, kl: [usize; 3], vl: [usize; 3], interval: usize, second_n: usize) {
+    let mut b = BlockWriter::builder();
+    b.index_key_interval(NonZeroUsize::new(interval).unwrap());
+    let mut bw = b.build();
+    let mut round = 0;
+    while round < 2 {
+        let cnt = if round == 0 { n } else { second_n };
+        let mut es = [BEnt { klen: 0, k: [0; 2], vlen: 0, v: [0; 8] }; 3];
+        let mut i = 0;
+        while i < 3 {
+            es[i] = BEnt { klen: kl[i], k: kani::any(), vlen: vl[i], v: kani::any() };
+            if i > 0 && i < cnt {
+                kani::assume(lex_gt(&es[i].k[..kl[i]], &es[i - 1].k[..kl[i - 1]]));
+            }
+            i += 1;
+        }
+        assert!(bw.last_key().is_none(), "a fresh / reset writer has no last key");
+        assert!(bw.current_size_estimate() == 12, "empty block: one offset + count");
+        let mut payload = 0;
+        let mut i = 0;
+        while i < 3 {
+            if i < cnt {
+                bw.insert(&es[i].k[..kl[i]], &es[i].v[..vl[i]]);
+                payload += 2 + kl[i] + vl[i];
+                assert!(bw.current_size_estimate() == payload + 8 * abs_offsets(i + 1, interval) + 4, "C15: size estimate");
+                match bw.last_key() {
+                    Some(k) => assert!(k.len() == kl[i] && (kl[i] < 1 || k[0] == es[i].k[0]) && (kl[i] < 2 || k[1] == es[i].k[1])),
+                    None => panic!("last_key lost"),
+                }
+            }
+            i += 1;
+        }
+        let estimate = bw.current_size_estimate();
+        {
+            let buf = bw.finish();
+            let bytes: &[u8] = buf.as_ref();
+            assert!(bytes.len() == estimate, "C15: the estimate is the exact size of the finished block");
+            // reference encoding, compared at one symbolic position (the solver quantifies over it)
+            let p: usize = kani::any();
+            kani::assume(p < bytes.len());
+            let mut pos = 0;
+            let mut offs = [0u64; 3];
+            let mut noffs = 1;
+            let mut i = 0;
+            while i < 3 {
+                if i < cnt {
+                    if i > 0 && i % interval == 0 {
+                        offs[noffs] = pos as u64;
+                        noffs += 1;
+                    }
+                    if p == pos {
+                        assert!(bytes[p] == kl[i] as u8, "C09: key length varint");
+                    }
+                    if p == pos + 1 {
+                        assert!(bytes[p] == vl[i] as u8, "C09: value length varint");
+                    }
+                    if p >= pos + 2 && p < pos + 2 + kl[i] {
+                        assert!(bytes[p] == es[i].k[p - pos - 2], "C09: key bytes");
+                    }
+                    if p >= pos + 2 + kl[i] && p < pos + 2 + kl[i] + vl[i] {
+                        assert!(bytes[p] == es[i].v[p - pos - 2 - kl[i]], "C09: value bytes");
+                    }
+                    pos += 2 + kl[i] + vl[i];
+                }
+                i += 1;
+            }
+            assert!(noffs == abs_offsets(cnt, interval));
+            let mut t = 0;
+            while t < 3 {
+                if t < noffs {
+                    let be = offs[t].to_be_bytes();
+                    if p >= pos && p < pos + 8 {
+                        assert!(bytes[p] == be[p - pos], "C09: offset table entry (u64 BE, first 0, one per interval)");
+                    }
+                    pos += 8;
+                }
+                t += 1;
+            }
+            let c = (noffs as u32).to_be_bytes();
+            if p >= pos {
+                assert!(p < pos + 4 && bytes[p] == c[p - pos], "C09: offset count (u32 BE)");
+            }
+            assert!(pos + 4 == bytes.len());
+            kani::cover!(p == 0 && cnt > 0);
+            kani::cover!(p + 1 == bytes.len());
+        } // BlockBuffer dropped: reset()
+        round += 1;
+    }
+    std::mem::forget(bw);
+}
+
+include!("block_writer_gen.rs");
+
+/// C18: the second insert panics iff its key is not strictly greater than the first (lengths symbolic 0..=2).
+fn order_check(expect_panic: bool) {
+    let k1: [u8; 2] = kani::any();
+    let k2: [u8; 2] = kani::any();
+    let (l1, l2): (usize, usize) = (kani::any(), kani::any());
+    kani::assume(l1 <= 2 && l2 <= 2);
+    let gt = lex_gt(&k2[..l2], &k1[..l1]);
+    kani::assume(gt != expect_panic);
+    let mut bw = BlockWriter::new();
+    bw.insert(&k1[..l1], &[]);
+    bw.insert(&k2[..l2], &[1]);
+    // reached only when no panic happened
+    match bw.last_key() {
+        Some(k) => assert!(k.len() == l2),
+        None => panic!("last_key lost"),
+    }
+    kani::cover!(l1 == 0 && l2 == 1);
+    kani::cover!(l1 == 1 && l2 == 2 && k1[0] == k2[0]);
+    std::mem::forget(bw);
+}
+
+#[kani::proof]
+#[kani::unwind(10)]
+#[kani::should_panic]
+fn c18_block_order_panics() {
+    order_check(true);
+}
+
+#[kani::proof]
+#[kani::unwind(10)]
+fn c18_block_order_accepts() {
+    order_check(false);
+}
+
+/// C18: after finish (reset) any key is accepted again, including a smaller one.
+#[kani::proof]
+#[kani::unwind(10)]
+fn c18_block_order_after_reset() {
+    let k1: [u8; 2] = kani::any();
+    let k2: [u8; 2] = kani::any();
+    let mut bw = BlockWriter::new();
+    bw.insert(&k1[..], &[]);
+    {
+        let _buf = bw.finish();
+    }
+    bw.insert(&k2[..1], &[]);
+    bw.reset();
+    bw.insert(&k1[..0], &[]);
+    assert!(bw.current_size_estimate() == 2 + 12);
+    kani::cover!(k2[0] < k1[0]);
+    std::mem::forget(bw);
 }
